@@ -1,0 +1,10 @@
+//go:build verif
+// +build verif
+
+package eth
+
+// VerifSealBypass lets the verification harness skip only the ethash proof-of-work seal check
+// (mining real seals is infeasible in a test); every other header rule stays in force.
+var VerifSealBypass bool
+
+func verifSealBypass() bool { return VerifSealBypass }
